@@ -81,12 +81,27 @@ def run_groups(groups, repo, scratch, pid):
             cmd += ["--harness", h]
         out["cmds"].append(" ".join(cmd))
         t0 = time.time()
+        import signal
+        proc = subprocess.Popen(cmd, cwd=scratch, env=env, stdout=subprocess.PIPE, stderr=subprocess.STDOUT,
+                                text=True, start_new_session=True)
         try:
-            p = subprocess.run(cmd, cwd=scratch, env=env, capture_output=True, text=True,
-                               timeout=g.get("timeout", 3600))
-            text = p.stdout + "\n" + p.stderr
-        except subprocess.TimeoutExpired as e:
+            text, _ = proc.communicate(timeout=g.get("timeout", 3600))
+        except subprocess.TimeoutExpired:
+            # kill the whole process group (cargo-kani -> kani-driver -> cbmc), otherwise the
+            # solver processes keep the pipes open and keep eating memory
+            try:
+                os.killpg(proc.pid, signal.SIGKILL)
+            except ProcessLookupError:
+                pass
+            try:
+                text, _ = proc.communicate(timeout=30)
+            except Exception:
+                text = ""
             out["undecided"].append("kani group %s: timeout after %ss" % (g.get("name", "?"), g.get("timeout", 3600)))
+            parsed_partial = parse(text or "")
+            for h in g["harnesses"]:
+                out["harnesses"].append(dict(name=h, status="undecided", checks=0, failed=0, failed_checks=[],
+                                             time_s=0, bounded=g.get("bounded", {}).get(h, ""), functions=[]))
             continue
         parsed = parse(text)
         if "error: could not compile" in text or "error[E" in text:
